@@ -374,6 +374,35 @@ def main():
                             one[route] = {'bindings': [bindings(m) for m in fn()]}
                         except Exception as e:
                             one[route] = {'crash': type(e).__name__ + ': ' + str(e)[:120]}
+                # every match of the outer pattern, in turn: continue below what IT bound the placeholder to, with the expression
+                # itself as pattern in which an identifier is replaced by the placeholder THIS match binds to it
+                per = []
+                for mi, m in enumerate(find_matches(cont['outer'], student_code=case['program'], report=rep)[:4]):
+                    try:
+                        node = m[cont['ph']]
+                    except KeyError:
+                        continue
+                    if getattr(node, 'astNode', None) is None or not isinstance(node.astNode, ast.expr) \
+                            or not isinstance(getattr(node.astNode, 'ctx', ast.Load()), ast.Load):
+                        continue
+                    src = ast.unparse(node.astNode)
+                    for nph, values in m.symbol_table.items():
+                        idents = sorted({v.id for v in values})
+                        if len(idents) != 1:
+                            continue
+                        tree = ast.parse(src, mode='eval')
+                        hits = [n for n in ast.walk(tree) if isinstance(n, ast.Name) and n.id == idents[0]]
+                        if not hits or isinstance(tree.body, ast.Name):
+                            continue
+                        for n in hits:
+                            n.id = nph
+                        inner = ast.unparse(tree) + '\n'
+                        try:
+                            got = [bindings(r)['names'].get(nph) for r in node.find_matches(inner)]
+                        except Exception as e:
+                            got = 'crash: ' + type(e).__name__ + ': ' + str(e)[:100]
+                        per.append({'match': mi, 'inner': inner, 'placeholder': nph, 'identifier': idents[0], 'got': got})
+                one['per_match'] = per
             except Exception as e:
                 one['crash'] = type(e).__name__ + ': ' + str(e)[:120]
             rec['continued'].append(one)
